@@ -68,4 +68,8 @@ CHECKS = {
         text='Under a harness-owned deterministic scheduler, for 23 two-thread and 4 three-thread scenarios over shared objects (functools.wraps chains, as_forged objects, wrappers.decorator/wrapper_decorator objects and methods, modifiers-wrapped methods on same/different instances, Combination, partial), in both role orders: ALL one-preemption schedules at line granularity inside sigtools (thorough: ~120k schedules, exhaustive per scenario), ~1 800 two-preemption schedules per scenario starting in shared-state windows, and sampled three-thread schedules return the sequential answer in every thread, lose no attribute at quiescence and leave later retrievals unchanged.',
         design_ref='DESIGN.md 2/C17', technique='systematic schedule enumeration with a cooperative scheduler (sys.settrace preemption points) vs sequential-run oracle',
         note='Preemption only at line boundaries of sigtools frames; finer-grained (bytecode-level, C-level) races are not explored. Non-terminating schedule = harness error.'),
+    'C18': dict(
+        text='Part A: for every function of the <=3-named universe with >=2 positional-or-keyword parameters and every step set from {kwoargs, posoargs, autokwoargs(exceptions=), annotate}, ALL application orders that are stepwise admissible (independent reference) succeed and agree on sigtools/inspect signature (incl. annotations applied last) and on call behaviour over all shapes. Part B: 24k generated histories + 3.2k Hypothesis rule-based state-machine runs (<=30 steps) + every rule sequence of length <=5 over a 9-letter alphabet on classes with modifiers / forwards_to_method (emulate both ways) / wrappers.decorator methods agree with a pristine model after every step, bind to the right instance, and every dropped instance is reclaimed (weakref after gc.collect()).',
+        design_ref='DESIGN.md 2/C18', technique='permutation metamorphic testing against C12\'s reference + Hypothesis stateful (RuleBasedStateMachine) / exhaustive short histories vs a pristine-model oracle with weakref reclamation invariant',
+        note='Reclamation is observed only after the machine dropped all strong references it holds (instance, bound objects). Model strings computed once on a fresh copy of the classes.'),
 }
